@@ -99,6 +99,7 @@ class Case:
             gi = {"first": 0, "middle": len(self.groups) // 2, "last": len(self.groups) - 1}[s["zero_group"]]
             X = np.array(X, copy=True, order="F")
             X[:, self.groups[gi]] = 0.0
+            self.null_group = gi
         self.n_tasks = int(s.get("n_tasks", 3))
         y = C.make_target(rng, X, C.TARGET_KIND[dfn], n_tasks=self.n_tasks, ties=s.get("ties", True),
                           noise=s.get("noise", 0.5))
@@ -132,6 +133,8 @@ class Case:
         po = dict(s.get("pen_opts", {}))
         if self.pen_name in ("WeightedL1", "WeightedGroupL2") and s.get("zero_weights"):
             po["zero_weights"] = True
+        if s.get("zero_weight_on_null") and getattr(self, "null_group", None) is not None:
+            po["null_units"] = [int(self.null_group)]       # the all-zero group is also unpenalised (weight 0)
         self.pen_u, self.ref_pen, self.pen_prm = C.make_penalty(
             self.pen_name, rng, self.n_coef, alpha, groups=self.groups, positive=bool(s.get("positive", False)), **po)
         self.ref = R.RefProblem(self.Xd, self.y, self.ref_df, self.ref_pen, self.fit_intercept)
